@@ -75,23 +75,17 @@ theorem C06h_hook_enter_registered (cfg : Cfg) (defs : List Kind) (s : St) (m : 
         rw [hx] at hnone
         simp [escToOpt] at hnone
 
-/-- a scheduler operation of a history whose resume() scripts only enter lets nothing out -/
-theorem C06h_sched_esc (cfg : Cfg) (defs : List Kind) (hd : HDefs) (h : noExitOnResume hd = true) (s : St) (op : HOp)
-    (hop : isSchedOpH op = true) :
+/-- a scheduler operation (suspend / continue / revisit) never lets anything out: what it reports is `none` or `skip` -/
+theorem C06h_sched_esc (cfg : Cfg) (defs : List Kind) (hd : HDefs) (s : St) (op : HOp) (hop : isSchedOpH op = true) :
     (stepCoreH cfg defs hd s op).2.2 = .none ∨ (stepCoreH cfg defs hd s op).2.2 = .skip := by
-  have key : ∀ s' : St, s'.phase = .suspended → (resumeContextsH cfg defs hd s').2.2 = false :=
-    fun s' hp => resumeContextsH_no_crash cfg defs hd h s' (by rw [hp]; decide)
   cases op with
   | revisit =>
     simp only [stepCoreH]
     by_cases hph : (s.phase != .suspended) = true
     · rw [if_pos hph]; exact Or.inr rfl
     · rw [if_neg hph]
-      have hp : s.phase = .suspended := by simpa using hph
-      have := key s hp
-      generalize resumeContextsH cfg defs hd s = r at this
-      obtain ⟨s1, c1, b⟩ := r
-      simp only [] at this; subst this
+      generalize resumeContextsH cfg defs hd s = r
+      obtain ⟨s1, c1⟩ := r
       simp only []
       by_cases hst : (s1.status != .none) = true
       · rw [if_pos hst]; exact Or.inl rfl
@@ -105,29 +99,19 @@ theorem C06h_sched_esc (cfg : Cfg) (defs : List Kind) (hd : HDefs) (h : noExitOn
       simp only [stepCoreH]
       by_cases hph : (s.phase != .running) = true
       · rw [if_pos hph]; exact Or.inr rfl
-      · rw [if_neg hph]
-        have := key { s with phase := .suspended } rfl
-        generalize resumeContextsH cfg defs hd { s with phase := .suspended } = r at this
-        obtain ⟨s1, c1, b⟩ := r
-        simp only [] at this; subst this
-        exact Or.inl rfl
+      · rw [if_neg hph]; exact Or.inl rfl
     | continue_ =>
       simp only [stepCoreH]
       by_cases hph : (s.phase != .suspended) = true
       · rw [if_pos hph]; exact Or.inr rfl
-      · rw [if_neg hph]
-        have hp : s.phase = .suspended := by simpa using hph
-        have := key s hp
-        generalize resumeContextsH cfg defs hd s = r at this
-        obtain ⟨s1, c1, b⟩ := r
-        simp only [] at this; subst this
-        exact Or.inl rfl
+      · rw [if_neg hph]; exact Or.inl rfl
 
-/-- **C06h_no_crash**: if no resume() script LEAVES a context, no suspension, continuation or revisit ever lets an exception
-    out of the scheduler - whatever else the hooks do (enter anything, raise, leave contexts from pause()), for every history
-    from every state.  `_resume_contexts` walks over the live dict, but hooks that only enter cannot change it: no task is
-    active while the scheduler resumes a task, so nothing is registered. -/
-theorem C06h_no_crash (cfg : Cfg) (defs : List Kind) (hd : HDefs) (h : noExitOnResume hd = true) (ops : List HOp) :
+/-- **C06h_no_crash**: no suspension, continuation or revisit ever lets an exception out of the scheduler - WHATEVER the hooks
+    do (enter or leave anything from resume() and from pause(), raise), for every set of hook scripts, every history, from
+    every state.  Both loops walk over a copy of the task's contexts and keep every hook's exception to themselves (the
+    first one of a resume loop / the last one of a pause loop becomes the task's failure).  Before /repo commit 28d2b07 this
+    needed the hypothesis `noExitOnResume hd` (the resume loop walked over the live dict: `C06h_resume_walks_copy`). -/
+theorem C06h_no_crash (cfg : Cfg) (defs : List Kind) (hd : HDefs) (ops : List HOp) :
     ∀ s : St, specH (runH cfg defs hd s ops) = true := by
   induction ops with
   | nil => intro s; rfl
@@ -138,38 +122,33 @@ theorem C06h_no_crash (cfg : Cfg) (defs : List Kind) (hd : HDefs) (h : noExitOnR
     refine ⟨?_, hrest⟩
     by_cases hop : isSchedOpH op = true
     · have hesc : (stepH cfg defs hd s op).2.esc = (stepCoreH cfg defs hd s op).2.2 := rfl
-      have hopp : (stepH cfg defs hd s op).2.op = op := rfl
-      rcases C06h_sched_esc cfg defs hd h s op hop with h1 | h1
+      rcases C06h_sched_esc cfg defs hd s op hop with h1 | h1
       · simp [escapesH, hesc, h1]
       · simp [escapesH, hesc, h1]
     · have hopp : (stepH cfg defs hd s op).2.op = op := rfl
       simp [escapesH, hopp, hop]
 
-/-- **the hypothesis of C06h_no_crash is needed - and this is a defect of the real library** (reproduced on it:
-    harness/checks/ctxhist.py CRASH_DEMOS): context 0's resume() leaves context 1, which the task has registered AFTER 0.  At
-    the continuation `_resume_contexts` walks over the live OrderedDict, 0's hook deletes 1's entry, the next step of the
-    iteration raises RuntimeError outside the loop's try/except: it leaves the scheduler (`value()` raises it), the task is
-    NOT computed, context 2 is never resumed although `_contexts_active` is True.  `_pause_contexts` copies the dict first. -/
-theorem C06h_live_iteration_counterexample :
+/-- **C06h_resume_walks_copy** (the history that showed the live-dict defect, reproduced on the real library as
+    harness/checks/ctxhist.py LIVE_DICT_DEMOS): context 0's resume() leaves context 1, which the task has registered AFTER 0.
+    Before /repo commit 28d2b07 the continuation raised RuntimeError("OrderedDict mutated during iteration") out of the
+    scheduler and left the task uncomputed.  Now `_resume_contexts` walks over a copy [0, 1, 2]: R0 - whose hook leaves 1 (P1,
+    unregistered) -, then 1 STILL gets its resume() from the library (R1: it is in the copy), then R2; nothing escapes, the task
+    goes on and finishes ok; 1 is no longer registered ([0, 2]), so the next suspension pauses 2 and 0 only - the mirror image
+    of `C06h_pause_walks_copy`. -/
+theorem C06h_resume_walks_copy :
     let defs : List Kind := [.plain [] [], .plain [] [], .plain [] []]
     let hd : HDefs := [{ onR := [.exit 1] }, {}, {}]
-    let ops : List HOp := [.base (.enter 1), .base (.enter 0), .base (.enter 1), .base (.enter 2), .base .suspend, .base .continue_]
-    wfH defs hd = true ∧
-    specH (runH (codeCfg false) defs hd (init defs 1) ops) = false ∧
+    let ops : List HOp := [.base (.enter 1), .base (.enter 0), .base (.enter 1), .base (.enter 2), .base .suspend, .base .continue_,
+      .base (.finish true)]
+    wfH defs hd = true ∧ noExitOnResume hd = false ∧
     (runH (codeCfg false) defs hd (init defs 1) ops).map (fun ob => (ob.calls.map unflag, ob.esc, ob.status)) =
       [([(true, 1)], .none, .none), ([(true, 0), (false, 1)], .none, .none), ([(true, 1)], .none, .none),
        ([(true, 2)], .none, .none), ([(false, 2), (false, 1), (false, 0)], .none, .none),
-       ([(true, 0), (false, 1)], .exc .other, .none)] ∧
-    (finalStateH (codeCfg false) defs hd (init defs 1) ops).active = true := by
-  decide
-
-/-- the same change made by the hook of the LAST registered context goes unnoticed: the iteration is over -/
-theorem C06h_live_iteration_last_is_silent :
-    let defs : List Kind := [.plain [] [], .plain [] [], .plain [] []]
-    let hd : HDefs := [{ onR := [.exit 1] }, {}, {}]
-    let ops : List HOp := [.base (.enter 1), .base (.enter 0), .base (.exit 0), .base (.enter 1), .base (.enter 2),
-      .base .suspend, .base (.enter 0), .base (.exit 0), .base .continue_]
-    specH (runH (codeCfg false) defs hd (init defs 1) ops) = true := by
+       ([(true, 0), (false, 1), (true, 1), (true, 2)], .none, .none), ([], .none, .ok)] ∧
+    (finalStateH (codeCfg false) defs hd (init defs 1) ops).reg = [0, 2] ∧
+    (finalStateH (codeCfg false) defs hd (init defs 1) ops).status = .ok ∧
+    (runH (codeCfg false) defs hd (init defs 1) (ops.take 6 ++ [.base .suspend])).getLast?.map (fun ob => ob.calls.map unflag) =
+      some [(false, 2), (false, 0)] := by
   decide
 
 /-- **C06h_composite_pause_order**: a composite context (0; its resume() enters the members 1, 2, its pause() leaves them in
@@ -290,7 +269,13 @@ example :
       { op := .enter 0, calls := [⟨true, 0, false⟩, ⟨true, 0, false⟩], esc := .none, vals := [77], status := .none }] = true := by
   decide
 
-example : noExitOnResume [{ onR := [.enter 1, .enter 2], onP := [.exit 2, .exit 1] }, {}, {}] = true ∧
-    noExitOnResume [{ onR := [.exit 1] }, {}, {}] = false := by decide
+/-- `C06h_no_crash` is not vacuous: a free set of scripts (resume() leaves and enters, pause() enters) and a history with
+    revisits in which every scheduler operation is executed -/
+example :
+    let defs : List Kind := [.plain [] [], .plain [] [], .plain [] []]
+    let hd : HDefs := [{ onR := [.exit 1, .enter 2], onP := [.enter 1] }, {}, {}]
+    let ops : List HOp := [.base (.enter 1), .base (.enter 0), .base (.enter 1), .base .suspend, .revisit, .base .continue_]
+    specH (runH (codeCfg false) defs hd (init defs 1) ops) = true ∧
+    (runH (codeCfg false) defs hd (init defs 1) ops).all (fun ob => ob.esc != .skip) = true := by decide
 
 end AsynqModel.Contexts
